@@ -522,6 +522,11 @@ type ihook struct {
 	id   int
 	gate *gate
 
+	// relTwice: Recv calls r.ReleaseArgs() once more before Return (which
+	// releases them again).  Legal: "After the first call, subsequent
+	// calls to a ReleaseFunc do nothing."
+	relTwice bool
+
 	// protected by cc.log.mu (updated inside log.add callbacks)
 	active    int
 	shutBegan int64 // stamp of first Shutdown, 0 if none
@@ -559,6 +564,10 @@ func (h *ihook) Recv(ctx context.Context, r capnp.Recv) capnp.PipelineCaller {
 	uid := r.Args.Uint64(0)
 	h.enter("recv", uid)
 	h.gate.pass()
+	if h.relTwice {
+		r.ReleaseArgs()
+		h.cc.rec.Count("hook_release_args_twice", 1)
+	}
 	res, err := r.AllocResults(capnp.ObjectSize{DataSize: 16})
 	if err == nil {
 		res.SetUint64(0, uid)
